@@ -103,9 +103,34 @@ impl TryFrom<apollo_parser::cst::Selection> for Selection {
     }
 }
 
+/// Maximum nesting of generated selection sets (through fields and inline fragments).
+///
+/// Without a bound the nesting is only limited by the amount of input: the document would
+/// exceed the validation and parser recursion limits (or the generator would overflow the stack).
+const MAX_SELECTION_NESTING: usize = 16;
+
 impl DocumentBuilder<'_> {
     /// Create an arbitrary `SelectionSet`
     pub fn selection_set(&mut self) -> ArbitraryResult<SelectionSet> {
+        if self.selection_depth >= MAX_SELECTION_NESTING {
+            // `__typename` can be selected on every composite type and needs no sub-selection
+            return Ok(SelectionSet {
+                selections: vec![Selection::Field(Field {
+                    alias: None,
+                    name: Name::new(String::from("__typename")),
+                    args: Vec::new(),
+                    directives: Default::default(),
+                    selection_set: None,
+                })],
+            });
+        }
+        self.selection_depth += 1;
+        let selection_set = self.selection_set_at_current_depth();
+        self.selection_depth -= 1;
+        selection_set
+    }
+
+    fn selection_set_at_current_depth(&mut self) -> ArbitraryResult<SelectionSet> {
         let mut exclude_names = Vec::new();
         let selection_nb = self.stack.last().map(|o| o.fields_def().len()).unwrap_or(0);
 
